@@ -703,6 +703,9 @@ def part_experiment(ctx, pools):
 def run(ctx):
     pools = Pools()
     try:
+        # fork the process pools' workers now, before this process has started any thread
+        pools.multiprocessing()
+        pools.processpool().evaluate_all([JB.DelayJob(0)])
         part_chunks(ctx)
         part_evaluators(ctx, pools)
         part_pairing(ctx, pools)
